@@ -10,6 +10,18 @@ def mkQ (t : List String) : Q :=
   { mount := kv t "mount", fromR := kv t "from", digest := kv t "digest", algo := kv t "algo",
     cr := kv t "cr", state := kv t "state", body := kv t "body" }
 
+def csv (s : String) : List String := if s = "" then [] else s.splitOn ","
+
+def parseChild (s : String) : Desc :=
+  match s.splitOn "/" with
+  | [mt, dig, size] => { mt := mt, dig := dig, size := size.toNat?.getD 0 }
+  | _ => {}
+
+def mkBody (kind : String) (t : List String) : Body :=
+  { kind := kind, mtField := kv t "mt", cfg := kv t "cfg", cfgMt := kv t "cfgmt", layers := csv (kv t "layers"),
+    children := ((kv t "children").splitOn ";").filter (· ≠ "") |>.map parseChild,
+    subj := kv t "subj", atype := kv t "at", rann := kv t "ann", len := (kv t "len").toNat?.getD 0 }
+
 def pubOf (s : String) : Nat := ((s.drop 1).toString.toNat?).getD 0     -- "s3" ↦ 3, anything else ↦ 0 (unknown)
 
 def step (s : State) (line : String) : State × String :=
@@ -22,7 +34,14 @@ def step (s : State) (line : String) : State × String :=
   | ["BGET", r, a] => let (s', o) := bGet s r a false; (s', o.line)
   | ["BHEAD", r, a] => let (s', o) := bGet s r a true; (s', o.line)
   | ["BDEL", r, a] => let (s', o) := bDel s r a; (s', o.line)
-  | ["NEW"] => ({}, "new")
+  | "DEF" :: name :: kind :: rest => ({ s with defs := s.defs ++ [(name, mkBody kind rest)] }, "def")
+  | "MPUT" :: r :: ref :: rest => let (s', o) := mPut s r ref (kv rest "ct") (kv rest "qd") (kv rest "body"); (s', o.line)
+  | "MGET" :: r :: ref :: rest => let (s', o) := mGet s r ref (csv (kv rest "accept")) false; (s', o.line)
+  | "MHEAD" :: r :: ref :: rest => let (s', o) := mGet s r ref (csv (kv rest "accept")) true; (s', o.line)
+  | ["MDEL", r, ref] => let (s', o) := mDel s r ref; (s', o.line)
+  | "TAGS" :: r :: rest => let (s', o) := tags s r (kv rest "n") (kv rest "last"); (s', o.line)
+  | "REFS" :: r :: arg :: rest => let (s', o) := refs s r arg (kv rest "at"); (s', o.line)
+  | ["NEW"] => ({ defs := s.defs }, "new")
   | _ => (s, "bad-op")
 
 partial def loop (h : IO.FS.Stream) (out : IO.FS.Stream) (s : State) : IO Unit := do
